@@ -355,3 +355,55 @@ def desugar(text, vec_type=None):
                    '        %s })') % (it, src, init, more, more, it, more, v(0), inner_txt, result)
             notes.append('%s%s over `%s`' % (''.join(s[0] + '.' for s in stages), name, re.sub(r'\s+', ' ', src)[:60]))
         text = text[:src_start] + gen + text[cl + 1:]
+
+
+def desugar_for(text):
+    """Rule R13: `for PAT in EXPR BODY` -> `{ let mut r13_itN = EXPR; loop { match r13_itN.next() { None => { break; } Some(PAT) => BODY } } }`
+    (the definition of `for` in the Rust reference; `IntoIterator::into_iter` is the identity for the iterator types this is used
+    on).  `break` / `continue` / `return` inside BODY keep their meaning.  Returns (text, notes)."""
+    notes = []
+    n = 0
+    while True:
+        code = blank_noncode(text)
+        m = None
+        for mm in re.finditer(r'\bfor\b', code):
+            nxt = skip_ws(code, mm.end())
+            if code[nxt] == '<':
+                continue   # `for<'a>` in a type
+            m = mm
+            break
+        if not m:
+            return text, notes
+        n += 1
+        # PAT up to the keyword `in` at depth 0
+        i = m.end()
+        depth = 0
+        while i < len(code):
+            if code[i] in '([{':
+                depth += 1
+            elif code[i] in ')]}':
+                depth -= 1
+            elif depth == 0 and re.match(r'\bin\b', code[i:i + 3]) and not _identch(code[i - 1]) and not _identch(code[i + 2]):
+                break
+            i += 1
+        if i >= len(code):
+            raise R11Error('for without in')
+        pat = text[m.end():i].strip()
+        # EXPR up to the body `{` at depth 0
+        j = i + 2
+        depth = 0
+        while j < len(code):
+            if code[j] in '([':
+                depth += 1
+            elif code[j] in ')]':
+                depth -= 1
+            elif code[j] == '{' and depth == 0:
+                break
+            j += 1
+        expr = text[i + 2:j].strip()
+        body_close = match_close(code, j)
+        body = text[j:body_close + 1]
+        it = 'r13_it%d' % n
+        gen = '{ let mut %s = %s;\n        loop {\n            match %s.next() {\n                None => { break; }\n                Some(%s) => %s\n            }\n        } }' % (it, expr, it, pat, body)
+        notes.append('for %s in `%s`' % (pat, re.sub(r'\s+', ' ', expr)[:60]))
+        text = text[:m.start()] + gen + text[body_close + 1:]
